@@ -12,7 +12,8 @@ class C01(RecorderProp):
             'different arguments, instance / static / property sites, class-level operations, alias resolvers, capture '
             'subsets, wrapping data handlers, bodies raising, nested interceptions, values incl. tuples / bytes / nested '
             'containers / objects / self-referencing lists) recorded on memory / file / S3 cassettes, each followed by a replay of the SAME program on '
-            'the same recorder or on a fresh recorder over the same cassette; non-trivial = the recording was saved complete and '
+            'the same recorder or on a fresh recorder over the same cassette; 30% of the cases declare what-to-do-when-missing policies '
+            '(run the original, substitute value, default output result, fallback aliases) on their sites - none may ever be taken; non-trivial = the recording was saved complete and '
             'holds at least one interception; distinct = distinct canonical case')
     OPTS = dict(ALL_OPTS, faults=False, control=False, data=False, sampling=False, missing_play=False, body_effects=False,
                 interrupts=True, play_ratio=0.0, runs=(1, 2), cassettes=['memory', 'memory', 'file', 's3'], fallbacks=True)
